@@ -20,7 +20,7 @@ shutil.copy(src+'/patch.diff',dst+'/patch.diff')
 shutil.copytree(src+'/demo',dst+'/demo')
 meta=json.load(open(src+'/meta.json'))
 meta['breaks_property']=sid.split('-')[0]
-meta['round']=5
+meta['round']=6
 meta['confirmed_by_lead']={'how':'tools/confirm_seed.sh %s %s: demo FAILS with the patch and PASSES without it in the seed\'s scratch worktree; touched packages\' own tests (Themis stand-in) and the natively building baseline packages pass with the patch'%(N,k),'result':'confirmed'}
 json.dump(meta,open(dst+'/meta.json','w'),indent=1,ensure_ascii=False)
 print('KEPT',sid)
